@@ -304,6 +304,8 @@ fn render_with(g: &Graph, vals: Option<&BTreeMap<usize, i64>>) -> Vec<(String, S
             text.push_str("import pkg.idf;\n");
         }
         text.push_str(&helpers[m]);
+        // every module has a constant `LIMIT` of its own, written as a plain literal, and reads it
+        let _ = writeln!(text, "const LIMIT: i32 = {};\nfn read_limit() -> i32 {{\n    let r = LIMIT;\n    r + LIMIT - LIMIT\n}}", 7000 + m);
         for (tm, item) in &g.tests {
             if *tm == m {
                 let want = vals.and_then(|v| v.get(item).copied()).unwrap_or(0);
@@ -489,6 +491,18 @@ impl WorkerState for W {
                                         return fail("dependency-order", format!("{} was evaluated before its dependency {} (order {tags:?})", name(&g, i), name(&g, j)));
                                     }
                                 }
+                            }
+                        }
+                        // same-named literal constants, one per module
+                        for m in 0..g.n_modules {
+                            let full = if m == 0 { "read_limit".to_string() } else { format!("m{m}.read_limit") };
+                            let f = match pkg.get_function::<fn() -> i32>(&full) {
+                                Ok(f) => f,
+                                Err(e) => return fail("get_function", format!("{full}: {e}")),
+                            };
+                            let got = $call(&f) as i64;
+                            if got != 7000 + m as i64 {
+                                return fail("wrong-value", format!("{full}() returned {got}: the constant LIMIT of that module is {}", 7000 + m));
                             }
                         }
                         // values, and no re-evaluation on use
